@@ -39,7 +39,8 @@ H0 == [ urgent |-> FALSE, family |-> "", done |-> FALSE,
 \* mess:  commands that change the target groups (deploy kinds, remove) overlapped on this service
 \* messP: pause-type commands overlapped each other (or a remove): the pause state is no longer definite
 NewSvc == [ cur |-> NoCmd, curR |-> NoCmd, pstate |-> "running", pdef |-> TRUE, pcmd |-> NoCmd,
-            pending |-> {}, mess |-> FALSE, messP |-> FALSE, split |-> FALSE, binds |-> {}, live |-> FALSE ]
+            pending |-> {}, mess |-> FALSE, messP |-> FALSE, split |-> FALSE, binds |-> {}, live |-> FALSE,
+            epoch |-> <<>> ]      \* targets claimed (in order) since the healthy set of the active group last changed
 
 NewTg(c) == [ grp |-> c, okSeq |-> 0, okT |-> 0, repSeq |-> 0, repT |-> 0, repCls |-> "",
               probeT |-> -1, probeN |-> 0, inProbe |-> FALSE, nbeg |-> 0, retSeq |-> 0, retT |-> 0,
@@ -105,6 +106,7 @@ UpdCmdRet(h, e) ==
                                                                   !.binds = sv.binds, !.live = FALSE]
                ELSE [sv EXCEPT
                  !.binds = IF ok /\ c.kind = "deploy" THEN c.binds ELSE @,
+                 !.epoch = <<>>,
                  !.live = @ \/ (ok /\ c.kind \in DeployKinds),
                  !.pending = pend2,
                  !.cur  = IF ok /\ c.kind = "deploy" THEN e.c ELSE @,
@@ -127,7 +129,10 @@ UpdProbeReply(h, e) ==
   IF ~Has(h.tg, e.tg) THEN h
   ELSE LET t == h.tg[e.tg]
            first == e.cls = "ok" /\ t.okSeq = 0
-       IN [h EXCEPT !.tg[e.tg] = [t EXCEPT
+           s == h.cmd[t.grp].svc
+           flip == (e.cls = "ok") # (t.repCls = "ok")
+       IN [h EXCEPT !.svc[s].epoch = IF flip THEN <<>> ELSE @,
+                    !.tg[e.tg] = [t EXCEPT
              !.okSeq = IF first THEN e.seq ELSE @, !.okT = IF first THEN e.t ELSE @,
              !.repSeq = e.seq, !.repT = e.t, !.repCls = e.cls, !.inProbe = FALSE,
              !.flaky = @ \/ (e.cls # "ok" /\ t.okSeq # 0)]]
@@ -135,7 +140,7 @@ UpdProbeReply(h, e) ==
 UpdCliSend(h, e) ==
   LET sv == SvcOf(h, e.svc)
       r  == [ svc |-> e.svc, kind |-> e.kind, hold |-> e.hold, hc |-> e.hc, cookie |-> e.cookie,
-              abort |-> e.abort, tls |-> e.tls, send |-> e.seq, sendT |-> e.t, recv |-> 0, recvT |-> 0, status |-> 0,
+              abort |-> e.abort, tls |-> e.tls, sync |-> e.sync, send |-> e.seq, sendT |-> e.t, recv |-> 0, recvT |-> 0, status |-> 0,
               origin |-> "", intact |-> FALSE, msg |-> "", page |-> "",
               tg |-> NoTg, beg |-> 0, begT |-> 0, endSeq |-> 0, endT |-> 0, how |-> "", nbeg |-> 0,
               curAtSend |-> sv.cur, curRAtSend |-> sv.curR, pAtSend |-> sv.pstate, pdefAtSend |-> sv.pdef,
@@ -146,7 +151,12 @@ UpdCliSend(h, e) ==
 UpdTgBeg(h, e) ==
   IF ~Has(h.tg, e.tg) \/ ~Has(h.rq, e.r) THEN h
   ELSE [h EXCEPT !.rq[e.r].tg = e.tg, !.rq[e.r].beg = e.seq, !.rq[e.r].begT = e.t, !.rq[e.r].nbeg = @ + 1,
-                 !.tg[e.tg].nbeg = @ + 1, !.tg[e.tg].open = @ \cup {e.r}]
+                 !.tg[e.tg].nbeg = @ + 1, !.tg[e.tg].open = @ \cup {e.r},
+                 \* a claim at the very instant of a probe reply may still have used the previous rotation
+                 !.svc[h.cmd[h.tg[e.tg].grp].svc].epoch =
+                     IF (\A u \in h.cmd[h.tg[e.tg].grp].targets : h.tg[u].repT < e.t)
+                        /\ (\A x \in DOMAIN h.rq \ {e.r} : h.rq[x].recv # 0 /\ h.rq[x].recv < h.rq[e.r].send)
+                     THEN Append(@, e.tg) ELSE <<>>]
 
 UpdTgEnd(h, e) ==
   IF ~Has(h.tg, e.tg) \/ ~Has(h.rq, e.r) THEN h
@@ -254,6 +264,17 @@ ChkTgBeg(h, e) ==
            {V("C03_b", e.r, Sig(r), <<"request sent to drained target while", sv.pstate, e.tg>>)})
    \cup If(~sv.messP /\ sv.pdef /\ sv.pstate = "stopped",
            {V("C08_fwd", e.r, Sig(r), <<"request forwarded while stopped", e.tg>>)})
+   \cup (LET healthy == {u \in TargetsOf(h, sv.cur) : h.tg[u].okSeq # 0 /\ h.tg[u].repCls = "ok"}
+              k == Cardinality(healthy)
+              ep == Append(sv.epoch, e.tg)
+              n == Len(ep)
+              lastk == {ep[i] : i \in (n - k + 1)..n}
+          IN \* C09_c: while the healthy set is unchanged, any k consecutive sequential claims are k different targets
+             \* (claims are observed as arrivals at the targets: they are in claim order only when requests do not overlap)
+             If(h.urgent /\ r.sync /\ ~sv.mess /\ sv.pending = {} /\ r.cookie = "" /\ e.tg \in healthy /\ k >= 2 /\ n >= k
+                /\ (\A x \in DOMAIN h.rq \ {e.r} : h.rq[x].recv # 0 /\ h.rq[x].recv < r.send)
+                /\ (\A u \in TargetsOf(h, sv.cur) : h.tg[u].repT < e.t) /\ Cardinality(lastk) < k,
+                {V("C09_c", e.r, Sig(r), <<"rotation not fair: last claims", SubSeq(ep, n - k + 1, n), "healthy", healthy>>)}))
    \cup If(h.urgent /\ t.repSeq # 0 /\ t.repCls # "ok" /\ e.t > t.repT,
            {V("C09_b", e.r, Sig(r), <<"request sent to target whose latest probe failed", e.tg, t.repCls, t.repT>>)})
 
@@ -400,6 +421,11 @@ ChkPause(h, r, rid, e) ==
         /\ (\A u \in Allowed(h, r, e.seq) : ~h.tg[u].flaky),
         {V("C07_f", rid, Sig(r), <<"503 although the service was never stopped during the request", P>>)})
 
+\* a plain request of a running, deployed service with no command overlapping its life
+C02like(h, r, seq) ==
+  /\ Has(h.svc, r.svc) /\ ~h.svc[r.svc].mess /\ r.kind = "plain" /\ ~r.hc /\ r.abort = 0 /\ r.cookie = ""
+  /\ r.curAtSend # NoCmd /\ r.pAtSend = "running" /\ r.pdefAtSend /\ Overlapping(h, r, seq) = {}
+
 ChkCliRecv(h, g, e) ==
   IF ~Has(h.rq, e.r) THEN {V("HARNESS", e.r, "", "unknown request in cli_recv")}
   ELSE
@@ -412,6 +438,11 @@ ChkCliRecv(h, g, e) ==
    \cup If(r.how = "cancelled" /\ r.abort = 0 /\ e.status # 504,
          {V("C03_c", e.r, Sig(r), <<"request cut off without a 504", e.status>>)})
    \cup ChkPause(h, r, e.r, e)
+   \cup (LET grp == TargetsOf(h, r.curAtSend)
+              dead == \A u \in grp : h.tg[u].repSeq # 0 /\ h.tg[u].repCls # "ok" /\ h.tg[u].repT < r.sendT /\ ~h.tg[u].inProbe
+          IN \* C09_d: no healthy target during the whole life of the request: 503, nothing forwarded
+             If(h.urgent /\ C02like(h, r, e.seq) /\ grp # {} /\ dead /\ ~(e.status = 503 /\ r.beg = 0),
+                {V("C09_d", e.r, Sig(r), <<"no healthy target but got", e.status, e.origin>>)}))
 
 ChkProbe(h, e) ==
   IF ~Has(h.tg, e.tg) THEN {}
@@ -468,6 +499,7 @@ Exercised(h, g, e) ==
          {"C01_a", "C01_c", "C03_b", "C04_svc"}
          \cup If(SvcOf(h, h.rq[e.r].svc).pstate # "running" \/ h.rq[e.r].pAtSend # "running", {"C07_a", "C08_fwd"})
          \cup If(h.urgent /\ h.tg[e.tg].flaky, {"C09_b"})
+         \cup If(h.urgent /\ h.rq[e.r].sync /\ Len(SvcOf(h, h.cmd[h.tg[e.tg].grp].svc).epoch) >= 2, {"C09_c"})
     [] e.ev = "tg_end" /\ Has(h.tg, e.tg) /\ Has(h.rq, e.r) ->
          If(\E k \in DOMAIN h.cmd : e.tg \in h.cmd[k].prev, {"C03_a"})
     [] e.ev = "cmd_ret" ->
@@ -481,6 +513,7 @@ Exercised(h, g, e) ==
     [] e.ev = "cli_recv" /\ Has(h.rq, e.r) ->
          LET r == g.rq[e.r] IN
          If(C02pre(h, r, e.seq, e.t), {"C02"})
+         \cup If(e.status = 503 /\ h.urgent /\ C02like(h, r, e.seq), {"C09_d"})
          \cup If(C02pre(h, r, e.seq, e.t) /\ \E k \in Overlapping(h, r, e.seq) : TRUE, {"C02_overlap"})
          \cup If(r.how \in {"replied", "cancelled"} /\ \E k \in DOMAIN h.cmd : r.tg \in h.cmd[k].prev, {"C03_c"})
          \cup If(PausePre(h, r, e.seq) /\ r.hc /\ r.pAtSend \in {"paused", "stopped"}, {"C07_e"})
